@@ -97,6 +97,17 @@ def _get_parm_type_real(name: str, default: Optional[ArgT] = None) -> Union[VarT
         return default
 
 
+def _write_block(f: TextIO, block: Keyvalues, indent: str) -> None:
+    """Write a sub-block verbatim - Material.parse() disables escapes, so none may be produced."""
+    if block.has_children():
+        f.write(f'{indent}"{block.real_name}"\n{indent}\t{{\n')
+        for child in block:
+            _write_block(f, child, indent + '\t')
+        f.write(f'{indent}\t}}\n')
+    else:
+        f.write(f'{indent}"{block.real_name}" "{block.value}"\n')
+
+
 class Material(MutableMapping[str, str]):
     """Represents a material.
 
@@ -293,11 +304,11 @@ class Material(MutableMapping[str, str]):
                 value = f'"{value}"'
             f.write(f'\t{name} {value}\n')
         for block in self.blocks:
-            block.serialise(f, start_indent='\t')
+            _write_block(f, block, '\t')
         if self.proxies:
             f.write('\n\tProxies\n\t\t{\n')
             for block in self.proxies:
-                block.serialise(f, start_indent='\t\t')
+                _write_block(f, block, '\t\t')
             f.write('\t\t}\n')
         f.write('\t}\n')
 
